@@ -129,24 +129,25 @@ func bindingOf(fv *ssa.FreeVar) ssa.Value {
 func extractOfCall(p *walk.Path, dv walk.DV, idx int) (walk.Call, bool) {
 	r := p.Resolve(dv)
 	var callV ssa.Value
-	var inst int
+	var inst, frame int
 	switch x := r.V.(type) {
 	case *ssa.Extract:
 		if x.Index != idx {
 			return walk.Call{}, false
 		}
 		t := p.Resolve(p.Op(x.Tuple, r))
-		callV, inst = t.V, t.I
+		callV, inst, frame = t.V, t.I, t.F
 	case *ssa.Call:
 		if idx > 0 {
 			return walk.Call{}, false
 		}
-		callV, inst = x, r.I
+		callV, inst, frame = x, r.I, r.F
 	default:
 		return walk.Call{}, false
 	}
 	for _, cl := range p.Calls() {
-		if v, ok := cl.In.(ssa.Value); ok && v == callV && cl.Step.I == inst {
+		// the same call instruction can occur in several inlined instances of a helper on one path: the frame tells them apart
+		if v, ok := cl.In.(ssa.Value); ok && v == callV && cl.Step.I == inst && cl.Step.F == frame {
 			return cl, true
 		}
 	}
